@@ -478,6 +478,87 @@ func rulePlayLoop(c *Ctx) {
 			}
 		}
 		c.check(len(missing) == 0, fname(nf)+"|copy-settings", c.pos(nf.Pos()), fname(nf), "every setting of the input instance is carried over", fmt.Sprintf("%s: field(s) %v of the input instance are not copied into the instance that is played: the setting is silently dropped", fname(nf), missing))
+		// ... and that instance - after the flags had their say - is what is kept, at its own position
+		c.site(1)
+		var built *ssa.Alloc // the op.Instance the settings are copied into
+		allInstrs(nf, func(in ssa.Instruction) {
+			if st, ok := in.(*ssa.Store); ok {
+				if n, base, ok := fieldName(st.Addr); ok && n == "Values" {
+					if al, ok := base.(*ssa.Alloc); ok && typeName(al.Type()) == "op.Instance" {
+						built = al
+					}
+				}
+			}
+		})
+		var isBuilt func(v ssa.Value, seen map[ssa.Value]bool) (ok, viaOverride bool)
+		isBuilt = func(v ssa.Value, seen map[ssa.Value]bool) (bool, bool) {
+			if seen[v] {
+				return true, false
+			}
+			seen[v] = true
+			switch x := v.(type) {
+			case *ssa.Alloc:
+				return x == built, false
+			case *ssa.UnOp:
+				if x.Op == token.MUL {
+					if al, ok := x.X.(*ssa.Alloc); ok {
+						// the local itself, or a second local the instance is moved through; whatever is assigned to
+						// either as a whole must again be that instance
+						okAll, via, n := true, false, 0
+						for _, r := range *al.Referrers() {
+							if st, ok := r.(*ssa.Store); ok && st.Addr == ssa.Value(al) {
+								o, vo := isBuilt(st.Val, seen)
+								okAll, via, n = okAll && o, via || vo, n+1
+							}
+						}
+						return okAll && (n > 0 || al == built), via
+					}
+					return isBuilt(x.X, seen)
+				}
+			case *ssa.Phi:
+				okAll, via := true, false
+				for _, e := range x.Edges {
+					o, vo := isBuilt(e, seen)
+					okAll, via = okAll && o, via || vo
+				}
+				return okAll, via
+			case *ssa.Extract:
+				if call, ok := x.Tuple.(*ssa.Call); ok && x.Index == 0 && ov != nil && call == ov.(*ssa.Call) {
+					o, _ := isBuilt(call.Call.Args[1], seen)
+					return o, true
+				}
+			}
+			return false, false
+		}
+		stored, why2 := false, "no instance is stored into the result at the loop index"
+		if l := func() *loopInfo {
+			if ov != nil {
+				return enclosingRangeLoop(ov.Block())
+			}
+			return nil
+		}(); l != nil && built != nil {
+			allInstrs(nf, func(in ssa.Instruction) {
+				st, ok := in.(*ssa.Store)
+				if !ok {
+					return
+				}
+				ia, ok := st.Addr.(*ssa.IndexAddr)
+				if !ok || ia.Index != l.index || typeName(st.Val.Type()) != "op.Instance" {
+					return
+				}
+				o, via := isBuilt(st.Val, map[ssa.Value]bool{})
+				byValue := ov.Common().Signature().Results().Len() > 1
+				switch {
+				case !o:
+					why2 = "what is stored at the loop index is not the instance the settings were copied into"
+				case byValue && !via:
+					why2 = "the instance returned by overrideInstanceFromFlags is dropped: the stored instance never sees the flags"
+				default:
+					stored = true
+				}
+			})
+		}
+		c.check(stored, fname(nf)+"|store", c.pos(nf.Pos()), fname(nf), "the converted (and, for the first, overridden) instance is stored at its own position", fname(nf)+": "+why2)
 	} else {
 		c.missing("cmd.newWriteCmdArgsFromInputInstances")
 	}
@@ -1049,6 +1130,27 @@ func ruleOpt(c *Ctx) {
 				}
 			}
 			c.check(good, fname(ww)+"|meta|"+meth, c.pos(mc.Pos()), fname(ww), meth+" <- meta["+keyVal[wantKey[meth]]+"], text passed unmodified", fmt.Sprintf("the %s event is not fed with the text stored under %s", meth, keyVal[wantKey[meth]]))
+			// ... whenever that text is there: the only condition in front of the event is that its own text is not empty
+			if good {
+				c.site(1)
+				extra := ""
+				for _, pc := range pathConds(ci.Block()) {
+					own := false
+					if cmp, ok := pc.cond.(*ssa.BinOp); ok && (cmp.Op == token.NEQ || cmp.Op == token.EQL) {
+						x, y := cmp.X, cmp.Y
+						if _, isK := x.(*ssa.Const); isK {
+							x, y = y, x
+						}
+						if k, isK := y.(*ssa.Const); isK && k.Value != nil && k.Value.ExactString() == `""` && x == ci.Common().Args[0] && (cmp.Op == token.NEQ) == pc.side {
+							own = true
+						}
+					}
+					if !own {
+						extra = "a condition other than `its own text is not empty` decides whether the event is written"
+					}
+				}
+				c.check(extra == "", fname(ww)+"|meta|"+meth+"|guard", c.pos(ci.Pos()), fname(ww), meth+" is written whenever its text is not empty", fmt.Sprintf("%s: the %s event: %s (e.g. it is skipped when the instance also carries another kind of text)", fname(ww), meth, extra))
+			}
 		}
 	} else {
 		c.bad(fname(ww)+"|meta", c.pos(ww.Pos()), fname(ww), "the meta cell is not wired to Text/Lyric/Marker")
@@ -1348,4 +1450,42 @@ func ruleBuilder(c *Ctx) {
 		}
 	}
 	c.check(problem == "", name, c.pos(nb.Pos()), name, "built-ins first, then --attr and --chord files, errors returned", name+": "+problem)
+	// every entry of every file reaches the builder: what is handed to Builder.Chord / Builder.Attribute is an element of
+	// what a file (or the built-in table) gave in this very round, or of a list that every round appends to - not of a
+	// variable that each file overwrites (only the last file would count)
+	for _, adder := range []string{"chord.Builder.Chord", "chord.Builder.Attribute"} {
+		for _, rc := range findNB(adder) {
+			c.site(1)
+			args := rc.call.Common().Args
+			if len(args) < 2 {
+				continue
+			}
+			lost := ""
+			// the element: slice[i]
+			elem := args[1]
+			if ld, ok := elem.(*ssa.UnOp); ok && ld.Op == token.MUL {
+				if ia, ok := ld.X.(*ssa.IndexAddr); ok {
+					if phi, ok := ia.X.(*ssa.Phi); ok && isLoopHeader(phi.Block()) {
+						loop := naturalLoop(phi.Block())
+						for i, e := range phi.Edges {
+							if loop == nil || !loop[phi.Block().Preds[i]] {
+								continue
+							}
+							// carried around the loop: must be the list itself, grown
+							grown := e == ssa.Value(phi)
+							if call, ok := e.(*ssa.Call); ok {
+								if b, ok := call.Call.Value.(*ssa.Builtin); ok && b.Name() == "append" && call.Call.Args[0] == ssa.Value(phi) {
+									grown = true
+								}
+							}
+							if !grown {
+								lost = "the list the entries are taken from is overwritten on every round of the file loop instead of grown: only the last file's entries reach the builder"
+							}
+						}
+					}
+				}
+			}
+			c.check(lost == "", name+"|"+adder+"|every-file", c.pos(rc.call.Pos()), name, "entries of every file reach the builder", name+": "+lost)
+		}
+	}
 }
